@@ -13,7 +13,7 @@ func init() {
 		ID:    "C11",
 		Title: "Announced peers come back from get_peers, and only those, per BEP 5/32",
 		Decided: "C11.1 the endpoint stored on announce is (source IP, port) with port = the UDP source port when implied_port is set (it wins), else the explicit port; the same values go to the announce hook; " +
-			"C11.2 the store is written and read under the same args.info_hash; C11.3 values is assigned only from the BEP 32 filter applied to the store's answer with the query's want list and source IP, and the filter appends an entry only under (wants-v4 ∧ 4-byte form) ∨ (wants-v6 ∧ 16-byte form); " +
+			"C11.2 the store is written and read under the same args.info_hash; C11.3 values is assigned only from the BEP 32 filter applied to the store's answer with the query's want list and source IP, and the filter appends an entry only under (wants-v4 ∧ 4-byte form) ∨ (wants-v6 ∧ 16-byte form), and the krpc encoders keep that form (no value-receiver Marshal* method assigns to its receiver, NodeAddr's IP bytes go out verbatim; shared with C15.5); " +
 			"C11.4 a get_peers reply carries a token whenever a peer store is configured (shared with C10.4); C11.5 the bundled store's index is only touched under its lock, AddPeer stores the given endpoint under the given infohash keyed by its IP, GetPeers returns only entries of its own infohash, and a missing per-infohash map (or the index) is created in the same critical section that found it missing; " +
 			"C11.6 on the accepted-announce path the acknowledgement is preceded by PeerStore.AddPeer unless no store is configured, whatever other hooks are set; filterPeers returns each kept entry in the address form of the family it was kept for; " +
 			"C11.7 the address family of returned nodes follows the explicit want list, else the query's family (shared with C09.6).",
@@ -22,6 +22,7 @@ func init() {
 			{ID: "C11.1", Doc: "announced endpoint construction", Floor: 2, Run: c11r1},
 			{ID: "C11.2", Doc: "same key in and out", Floor: 2, Run: c11r2},
 			{ID: "C11.3", Doc: "values only through the BEP 32 filter", Floor: 2, Run: c11r3},
+			{ID: "C11.4", Doc: "a get_peers reply carries a token whenever a peer store is configured (shared with C10.4)", Floor: 2, Run: c10r4},
 			{ID: "C11.5", Doc: "bundled in-memory store", Floor: 6, Run: c11r5},
 			{ID: "C11.6", Doc: "an accepted announce reaches the peer store whenever one is configured", Floor: 1, Run: c11r6},
 			{ID: "C11.7", Doc: "family selection: explicit want, else the query's address family (shared with C09.6)", Floor: 2, Run: c09r6},
@@ -173,6 +174,8 @@ func c11r3(w *World, rr *RuleRun) {
 		}
 		rr.At(w, st, "Return.Values assigned only from filterPeers(source.IP(), args.want, store.GetPeers(ih))", good && w.withinUp(st.Parent(), h.fn), det)
 	}
+	// the form chosen per family survives encoding
+	w.checkEncodersVerbatim(rr, w.krpcMarshalRoots())
 	// inside filterPeers: each append is family-gated
 	srn := w.P.Func("shouldReturnNodes")
 	srn6 := w.P.Func("shouldReturnNodes6")
